@@ -247,7 +247,9 @@ __strft_card(
 		if (UNLIKELY(!s.cap)) {
 			casebit = 0x20;
 		}
-		if (d->h >= 12 && d->h < 24) {
+		if (UNLIKELY(bsz < 2U)) {
+			break;
+		} else if (d->h >= 12 && d->h < 24) {
 			buf[res++] = (char)('P' | casebit);
 		} else {
 			buf[res++] = (char)('A' | casebit);
